@@ -424,8 +424,9 @@ def check_sharing(rec, ps, cues, text):
       if p.get_region() is not seen[k].get_region():
         two = minimal_file([f"00:00:0{i}.000 --> 00:00:0{i + 1}.000 {' '.join(cue.settings)}\nx\n" for i in (1, 3)])
         rec.fail("region-not-shared", "equal settings share a region",
-                 f"two cues with settings `{' '.join(cue.settings)}` are in regions {seen[k].get_region().get_id()!r} and "
-                 f"{p.get_region().get_id() if p.get_region() else None!r}", {"settings": cue.settings}, "two regions", "one region",
+                 f"two cues with settings `{' '.join(cue.settings)}` are in regions "
+                 f"{seen[k].get_region().get_id() if seen[k].get_region() is not None else None!r} and "
+                 f"{p.get_region().get_id() if p.get_region() is not None else None!r}", {"settings": cue.settings}, "two regions", "one region",
                  REPLAY, {"text": two})
     else:
       seen[k] = p
